@@ -677,6 +677,13 @@ func (d *driver) setup() {
 		d.bwe = b
 	}
 	if !s.noCB {
+		if d.c.R.Bool() {
+			bwe := d.bwe
+			d.cb.mu.Lock()
+			d.cb.reenter = func() { _ = bwe.GetTargetBitrate(); _ = bwe.GetStats() }
+			d.cb.mu.Unlock()
+			d.c.Add("cases_whose_callback_calls_the_getters", 1)
+		}
 		d.bwe.OnTargetBitrateChange(d.cb.on)
 	}
 	for i := range s.streams {
